@@ -46,6 +46,10 @@ namespace rkcommon {
       Observer(Observable &observee);
       ~Observer();
 
+      // a copy observes the same observable and registers itself with it
+      Observer(const Observer &other);
+      Observer &operator=(const Observer &other);
+
       bool wasNotified();
 
      private:
@@ -92,6 +96,30 @@ namespace rkcommon {
     {
       if (observee)
         observee->removeObserver(*this);
+    }
+
+    inline Observer::Observer(const Observer &other)
+        : lastObserved(other.lastObserved), observee(other.observee)
+    {
+      if (observee)
+        observee->registerObserver(*this);
+    }
+
+    inline Observer &Observer::operator=(const Observer &other)
+    {
+      if (this == &other)
+        return *this;
+
+      if (observee)
+        observee->removeObserver(*this);
+
+      lastObserved = other.lastObserved;
+      observee     = other.observee;
+
+      if (observee)
+        observee->registerObserver(*this);
+
+      return *this;
     }
 
     inline bool Observer::wasNotified()
